@@ -1,12 +1,13 @@
 ------------------------------- MODULE MC_EC -------------------------------
 (* TLC proves, for the curve named by the constants, that the formulas of     *)
-(* EC.tla form a cyclic group of order N and that MulT (discrete-log table)   *)
-(* is "Q added to itself k times".  One initial state per ordered pair of     *)
+(* EC.tla form a cyclic group of order N and that SMul (halving)   *)
+(* is "Q added to itself k times" (SMul = Mul).  One initial state per ordered pair of     *)
 (* points; the lemmas about that pair are evaluated when TLC generates the    *)
 (* pair's single successor, so the work spreads over all workers.             *)
 EXTENDS EC
 
-CONSTANT Iterated      \* TRUE: also compare MulT with the recursive Mul for every k (small curves)
+CONSTANT Iterated      \* TRUE: also compare SMul with the recursive Mul for every k in -2N..2N (small curves;
+                       \* on the others MulStep is the induction step of the same statement)
 
 VARIABLES p, q, ph
 vars == <<p, q, ph>>
@@ -20,11 +21,11 @@ Next == Check
 Spec == Init /\ [][Next]_vars
 
 PairLemmas == /\ Closure(p, q) /\ Commut(p, q) /\ Assoc(p, q)
-              /\ ReprInvariant(p, q) /\ AddIsDLogAdd(p, q)
-              /\ \A k \in SmallK : MulT(k, Add(p, q)) = Add(MulT(k, p), MulT(k, q))
+              /\ ReprInvariant(p, q)
+              /\ \A k \in {0 - 1, 2, 3} : SMul(k, Add(p, q)) = Add(SMul(k, p), SMul(k, q))
 PointLemmas == /\ Identity(p) /\ Inverse(p) /\ MulStep(p) /\ OrderKills(p) /\ MulPeriodic(p)
                /\ MulHomomorphic(p, Inf)
                /\ (Iterated => MulIsIterated(p))
-               /\ BlindingCancels(DLog[p])          \* p ranges over all points, so DLog[p] over all blinding factors
+               /\ \A b \in 0..(N - 1) : SMul(b, G) = p => BlindingCancels(b)   \* every blinding factor, once
 GroupLaw == ph = 1 => PairLemmas /\ (q = Inf => PointLemmas)
 =============================================================================
